@@ -4,11 +4,13 @@
  * C14's postconditions over the opaque datagram value:
  *   peekType : a non-zero result is the header's type field, cookie and id are the header's (C14/peekType/post.type_cookie_id_are_header_fields)
  *   decode   : accepted  AND  the attribute loop met a MESSAGE-INTEGRITY attribute (HAS_MI)  AND  key non-empty
- *              ==>  the attribute equals HMAC-SHA1(key, protected prefix)        (C14/decode/post.integrity_*)
+ *              ==>  the attribute equals HMAC-SHA1(key, protected prefix)        (C14/QXmppStunMessage_decode/post.integrity_*)
  *              -- this conjunction is what the postconditions of handleDatagram call "authenticated under key".
- *              decode checks the attribute ONLY IF it is present: for !HAS_MI(buffer) it may accept under any key.
- *   ASSUMED in addition (evident from decode's first statements, not among C14's postconditions): an accepted message carries the
- *   header's type and transaction id (m_type, m_id). */
+ *              accepted under a non-empty key ==> HAS_MI   (C14/QXmppStunMessage_decode/post.accepted_under_a_key_only_with_a_verified_integrity_attribute;
+ *              clause DECODE_REQUIRES_INTEGRITY_WITH_KEY below, switched on by unit.py DECODE_FIXED since the repair of decode in /repo)
+ *              an accepted message carries the header's type and transaction id (m_type, m_id)
+ *                                                   (C14/QXmppStunMessage_decode/post.accepted_message_carries_the_header_type_cookie_and_transaction_id)
+ *   decode itself is NOT lowered in this unit: a change inside decode is decided by `verif check C14`. */
 quint16 QXmppStunMessage_peekType(qba buffer, quint32 *cookie, qba *id)
 __CPROVER_assigns(*cookie, *id)
 __CPROVER_ensures(__CPROVER_return_value != 0 ==> (__CPROVER_return_value == HDR_TYPE(buffer) && *cookie == __CPROVER_uninterpreted_stun_hdr_cookie(buffer) && *id == HDR_ID(buffer)))
